@@ -314,6 +314,9 @@ class PathEval(T.Evaluator):
         if "else" in n and H.diverges(n["else"]) and H.is_err_exit(n["else"]):
             self.event(kind="guard", canon=canon_guard(cv, True), value=cv, pol=True, node=n)
             return self.ev(n["then"], env)
+        if "else" not in n and H.diverges(n["then"]):
+            # `if c { continue | break | return <non-error> }`: what follows runs only when !c — recorded as a `skip` event
+            self.event(kind="skip", canon=canon_guard(cv, False), value=cv, node=n)
         t = self._branch(n["then"], env)
         e = self._branch(n["else"], env) if "else" in n else ("t", [])
         return ("v", "if", [cv, t, e])
